@@ -26,6 +26,8 @@ for pid in ids:
             "technique": d["technique"],
         }
         checks.append(c)
+    elif (V / "manifest.d" / f"{pid}.json.pending").exists():
+        na.append({"property_id": pid, "reason": "check built (model, theorems, harness are in the tree) but currently being re-tied to the latest accepted fix: commits in /repo; not claimed until it is quiet on the unchanged tree again (see DESIGN.md status)"})
     else:
         na.append({"property_id": pid, "reason": "no check registered yet: the Lean model and its tie to the code for this property are not built in this state of /verif (see DESIGN.md status table)"})
 fix_commits = subprocess.run(["git", "-C", "/repo", "log", "--format=%h %s", "76a2470..HEAD"], capture_output=True, text=True).stdout.splitlines()
